@@ -112,6 +112,13 @@ def aroot (w : Wiring) : Option AObj :=
   | Option.none => Option.none
   | some cd => some ⟨cd.name, .const "Font", arunInit cd (fontKw.map fun kr => (kr.1, AVal.param kr.2))⟩
 
+/-- symbolic twin of `freeRoot`: `C(**kwargs)` called by the user with the registered classes handed in;
+`self` says of which class the object itself is (defcon's own, or the one registered for its role) -/
+def afreeRoot (w : Wiring) (c : CName) (self : AVal) (kws : List (Ident × Role)) : Option AObj :=
+  match w.classDef c with
+  | Option.none => Option.none
+  | some cd => some ⟨cd.name, self, arunInit cd (kws.map fun kr => (kr.1, AVal.param kr.2))⟩
+
 def areachFrom (w : Wiring) : Option AObj → List Site → Option AObj
   | o, [] => o
   | Option.none, _ => Option.none
@@ -127,9 +134,25 @@ def explore (w : Wiring) : Nat → List AObj → List AObj
     let new := (acc.flatMap fun o => w.sites.filterMap fun s => astep w o s).filter (fun o => !acc.contains o)
     explore w n (acc ++ new.eraseDups)
 
+/-- the keywords by which a `Glyph` / a `Contour` takes its classes, with the role each carries -/
+def glyphKw : List (Ident × Role) :=
+  [("contourClass", .contour), ("pointClass", .point), ("componentClass", .component), ("anchorClass", .anchor),
+   ("guidelineClass", .guideline), ("libClass", .lib), ("imageClass", .image)]
+
+def contourKw : List (Ident × Role) := [("pointClass", .point)]
+
+/-- FREE-STANDING objects: the constructors a caller may run himself, handing in the registered classes
+(`Contour(pointClass=glyph.pointClass)`, `Glyph(contourClass=…, …)`), once as an object of defcon's own
+class and once as an object of the class registered for its role. -/
+def freeRoots : List (CName × AVal × List (Ident × Role)) := [
+  ("Contour", .const "Contour", contourKw),
+  ("Contour", .paramOr .contour "Contour", contourKw),
+  ("Glyph", .const "Glyph", glyphKw),
+  ("Glyph", .paramOr .glyph "Glyph", glyphKw)]
+
 def canonObjs (w : Wiring) : List AObj :=
   match aroot w with
-  | some o => explore w 8 [o]
+  | some o => explore w 8 ([o] ++ (freeRoots.filterMap fun t => afreeRoot w t.1 t.2.1 t.2.2).filter (fun x => x != o)).eraseDups
   | Option.none => []
 
 /-! ## 2. Catalogue of sites and table of creation paths -/
@@ -152,7 +175,8 @@ def catalogue : List (String × Disp) := [
   ("Font.instantiateDataSet", .handedOut .dataSet),
   ("Font.instantiateGuideline", .handedOut .guideline),
   ("Font.insertGuideline?isinstance", .guard .guideline),
-  -- `newInfo = Info()` in reloadInfo: read from disk, compared attribute by attribute, dropped
+  -- `newInfo = _ReloadedInfo()` in reloadInfo (a subclass of Info defined in font.py, seen by the extractor as a
+  -- hard-coded `Info`): read from disk, compared attribute by attribute, dropped
   ("Font.reloadInfo", .scratch),
   ("LayerSet.instantiateLayer", .handedOut .layer),
   ("Layer.instantiateGlyphObject", .handedOut .glyph),
@@ -249,7 +273,21 @@ def paths : List (String × List PathStep) := [
               fontStep "Font.instantiateFeatures", fontStep "Font.instantiateLib", fontStep "Font.instantiateGuideline"]
              ++ layerParts ++ glyphShell ++ outline ++ glyphMarks),
   -- setDataFromSerialization / deserialize at font, layer, glyph and contour level
-  ("deserialize", fontParts ++ [fontStep "Font.instantiateGuideline"] ++ layerParts ++ glyphShell ++ outline ++ glyphMarks)
+  ("deserialize", fontParts ++ [fontStep "Font.instantiateGuideline"] ++ layerParts ++ glyphShell ++ outline ++ glyphMarks),
+  -- (round 3) Layer.insertGlyph / Font.insertGlyph / copyDataFromGlyph from a font created with OTHER registered
+  -- classes: everything is rebuilt by the receiving glyph's factories
+  ("copyForeign", glyphShell ++ outline ++ glyphMarks),
+  -- (round 3) setDataFromSerialization below the font: LayerSet (new layers), Layer (glyphs), Glyph, Contour
+  ("deserializeParts", layerParts ++ glyphShell ++ outline ++ glyphMarks),
+  -- (round 3) a glyph made by `layer.instantiateGlyphObject()` that is in no layer, a contour made by
+  -- `glyph.instantiateContour()` that is in no glyph: pens, dict appends, image, lib, point-level API, reversal
+  ("freeStanding", [layerStep "Layer.instantiateGlyphObject", glyphStep "Glyph.instantiateLib", glyphStep "Glyph.instantiateImage"]
+                   ++ outline ++ glyphMarks ++
+                   [contourStep "Contour._splitAndInsertAtSegmentAndT", contourStep "Contour.removeSegment#1",
+                    contourStep "Contour.removeSegment#2", contourStep "Contour.reverse",
+                    ⟨"Contour.addPoint", toContour ++ ["Contour.reverse"]⟩]),
+  -- (round 3) a pen obtained by getPen()/getPointPen() and used after the glyph left its layer (deleted, replaced)
+  ("stalePen", outline)
 ]
 
 def pathSteps (name : String) : List PathStep := (AL.get? paths name).getD []
@@ -358,6 +396,66 @@ def propsOk (w : Wiring) (objs : List AObj) : Bool :=
       | Option.none => false
     else true
 
+/-! ## 3b. Free-standing roots and entry points that accept an object -/
+
+/-- every free-standing root is one of `objs` and hands in exactly the class keywords its constructor takes -/
+def freeRootsOk (w : Wiring) (objs : List AObj) : Bool :=
+  freeRoots.all fun t =>
+    (match afreeRoot w t.1 t.2.1 t.2.2 with
+      | some o => objs.contains o
+      | Option.none => false) &&
+    (match w.classDef t.1 with
+      | some cd => cd.params.all (fun p => (AL.get? t.2.2 p).isSome) && t.2.2.all (fun kr => cd.params.contains kr.1)
+      | Option.none => false)
+
+/-- The entry points of the sources that accept an object, with the role of that object. -/
+def entryRoles : List (String × Role) := [
+  ("Contour.appendPoint", .point), ("Contour.insertPoint", .point),
+  ("Font.insertGlyph", .glyph), ("Layer.insertGlyph", .glyph),
+  ("Font._set_guidelines", .guideline), ("Font.appendGuideline", .guideline), ("Font.insertGuideline", .guideline),
+  ("Info.appendGuideline", .guideline), ("Info.insertGuideline", .guideline),
+  ("Glyph.appendContour", .contour), ("Glyph.insertContour", .contour),
+  ("Glyph.appendComponent", .component), ("Glyph.insertComponent", .component),
+  ("Glyph._set_anchors", .anchor), ("Glyph.appendAnchor", .anchor), ("Glyph.insertAnchor", .anchor),
+  ("Glyph._set_guidelines", .guideline), ("Glyph.appendGuideline", .guideline), ("Glyph.insertGuideline", .guideline)]
+
+def entryRole (id : String) : Option Role := AL.get? entryRoles id
+
+/-- what must hold of an entry point that is not a delegation: the `isinstance` guard and the factory it
+names are sites of its own class, catalogued as guarding / creating the entry point's role -/
+def entryOk (w : Wiring) (e : Entry) (r : Role) : Bool :=
+  match e.how with
+  | .adopt => true
+  | .convertUnless g f =>
+    (match w.site g with
+      | some s => s.owner == e.owner && dispOf g == some (.guard r)
+      | Option.none => false) &&
+    (match w.site f with
+      | some s => s.owner == e.owner && dispOf f == some (.handedOut r)
+      | Option.none => false)
+  | .rebuild f =>
+    (match w.site f with
+      | some s => s.owner == e.owner && dispOf f == some (.handedOut r)
+      | Option.none => false)
+  | .delegate _ => false
+
+/-- The roles for which the property DEMANDS that whatever is handed in comes out as an object of the
+registered class: anchors and guidelines ("dictionary-based appending" goes through the same entry points:
+a dict is not an instance of the class) and glyphs ("insertion from another font").  Contours, components and
+points a caller constructs himself are documented to be taken as they are. -/
+def convertedRoles : List Role := [.anchor, .guideline, .glyph]
+
+/-- every entry point of the wiring is catalogued with a role, its delegations end (within 4 steps) in an
+entry point of the same role that satisfies `entryOk` and, for the roles of `convertedRoles`, does not adopt;
+and every catalogued entry point exists -/
+def entriesOk (w : Wiring) : Bool :=
+  (w.entries.all fun e =>
+    match entryRole e.id, resolveEntry w 4 e with
+    | some r, some e' => entryRole e'.id == some r && w.entries.contains e' && entryOk w e' r &&
+        (!convertedRoles.contains r || e'.how != .adopt)
+    | _, _ => false) &&
+  entryRoles.all fun p => (w.entry p.1).isSome
+
 /-! ## 4. Support for the examples of `Props/C15.lean` -/
 
 /-- only points (class 3) and anchors (class 8) customised -/
@@ -383,6 +481,15 @@ def dropKw (k : Ident) (s : Site) : Site := { s with kwargs := s.kwargs.filter f
 /-- the wiring with the `__init__` statements of class `c` rewritten by `f` -/
 def mapInit (w : Wiring) (c : CName) (f : List InitStmt → List InitStmt) : Wiring :=
   { w with classes := w.classes.map fun cd => if cd.name = c then { cd with init := f cd.init } else cd }
+
+/-- the wiring with entry point `id` treated as `how` (a seeded fault) -/
+def mapEntry (w : Wiring) (id : String) (how : Adoption) : Wiring :=
+  { w with entries := w.entries.map fun e => if e.id = id then { e with how := how } else e }
+
+/-- what entry point `entry` (delegations followed) makes of an object of class `given`, in the object
+reached from the font along `via` -/
+def storeVia (w : Wiring) (cfg : Cfg) (via : List String) (entry : String) (given : Val) : Option Stored :=
+  (reachIds w cfg via).bind fun o => ((w.entry entry).bind (resolveEntry w 4)).bind fun e => store w o e given
 
 /-- the certificate computed for `w` is rejected -/
 def rejects (w : Wiring) : Bool := !check w (canonObjs w)
